@@ -12,7 +12,7 @@ for d in sorted(os.listdir(os.path.join(V, "seeded"))):
     m = re.search(r"`([^`]*\.rs)`", desc)
     site = os.path.basename(m.group(1)) if m else "?"
     parts = []
-    for key, label in ((d, "quick check"), (d + "@kani", "Kani part alone"), (d + "@rv", "result-validation part alone")):
+    for key, label in ((d + "@first", "quick check before the generator was strengthened"), (d, "quick check"), (d + "@kani", "Kani part alone"), (d + "@rv", "result-validation part alone")):
         r = res.get(key)
         if not r:
             continue
